@@ -112,6 +112,16 @@ fn apply(state: &mut State, f: Value, x: Value) -> Result<Value, Error> {
     f.call(state, &[x])
 }
 
+/// `{{ rblock('a') }}`: `State::render_block` from a Rust function
+fn rblock(state: &mut State, name: String) -> Result<Value, Error> {
+    state.render_block(&name).map(Value::from)
+}
+
+/// `{{ cmacro('m') }}`: `State::call_macro` from a Rust function
+fn cmacro(state: &mut State, name: String) -> Result<Value, Error> {
+    state.call_macro(&name, &[]).map(Value::from)
+}
+
 #[derive(Clone, PartialEq, Debug)]
 enum Outcome {
     Ok(String),
@@ -132,6 +142,8 @@ fn build_env(prog: &Prog) -> Result<Environment<'static>, String> {
     let mut env = Environment::new();
     env.add_function("probe", probe);
     env.add_function("apply", apply);
+    env.add_function("rblock", rblock);
+    env.add_function("cmacro", cmacro);
     if prog.mode == "template" {
         for (name, src) in &prog.templates {
             env.add_template_owned(name.clone(), src.clone())
@@ -444,6 +456,130 @@ fn work(k: i64) -> String {
     "{{ 1 }}".repeat(k as usize)
 }
 
+
+/// every syntactic position in which the value of a nested evaluation `e` can be demanded
+/// (statement/emit position and expression/captured positions)
+fn positions(e: &str) -> Vec<(&'static str, String)> {
+    vec![
+        ("emit", format!("{{{{ {e} }}}}")),
+        ("filter", format!("{{{{ {e}|upper }}}}")),
+        ("set", format!("{{% set x = {e} %}}{{{{ x }}}}{{{{ x }}}}")),
+        ("concat", format!("{{{{ {e} ~ \"x\" }}}}")),
+        ("if", format!("{{% if {e} %}}y{{% else %}}n{{% endif %}}")),
+        ("setblock", format!("{{% set x %}}{{{{ {e} }}}}{{% endset %}}{{{{ x }}}}{{{{ x }}}}")),
+        ("filterblock", format!("{{% filter upper %}}{{{{ {e} }}}}{{% endfilter %}}")),
+        ("list", format!("{{{{ [{e}, {e}]|join(\"-\") }}}}")),
+        ("test", format!("{{{{ {e} is string }}}}{{{{ {e}|length }}}}")),
+        ("ternary", format!("{{{{ {e} if c else 'n' }}}}{{{{ 'n' if d else {e} }}}}")),
+        ("with", format!("{{% with q = {e} %}}{{{{ q }}}}{{% endwith %}}")),
+        ("arg", format!("{{{{ 'z'|default({e}) }}}}{{{{ dict(v={e}).v }}}}")),
+        ("twice-in-loop", format!("{{% for i in range(2) %}}{{{{ {e}|lower }}}}{{% endfor %}}")),
+    ]
+}
+
+/// nested-evaluation edges x positions x work parameter k (placed inside the nested body together
+/// with a `probe()`; another `probe()` follows in the caller)
+fn edge_programs(v: &mut Vec<Prog>) {
+    for k in 0..=3 {
+        let w = work(k);
+        let mut add = |edge: &str, pos: &str, tpls: &[(&str, String)]| {
+            v.push(prog(&format!("edge:{}:{}:{}", edge, pos, k), &format!("edge-{}-{}", edge, pos), k, tpls));
+        };
+        for (pos, p) in positions("m()") {
+            add("macro", pos, &[("main", format!("{{% macro m() %}}n{w}{{{{ probe() }}}}{{% endmacro %}}{p}{{{{ probe() }}}}"))]);
+        }
+        for (pos, p) in positions("lib.m()") {
+            add("import", pos, &[("main", format!("{{% import 'lib' as lib %}}{p}{{{{ probe() }}}}")),
+                                 ("lib", format!("{{% macro m() %}}n{w}{{{{ probe() }}}}{{% endmacro %}}"))]);
+        }
+        for (pos, p) in positions("caller()") {
+            add("caller", pos, &[("main", format!("{{% macro m() %}}[{p}]{{{{ probe() }}}}{{% endmacro %}}{{% call m() %}}c{w}{{{{ probe() }}}}{{% endcall %}}{{{{ probe() }}}}"))]);
+        }
+        for (pos, p) in positions("super()") {
+            add("super", pos, &[("main", format!("{{% extends 'base' %}}{{% block a %}}[{p}]{{{{ probe() }}}}{{% endblock %}}")),
+                                ("base", format!("<{{% block a %}}A{w}{{{{ probe() }}}}{{% endblock %}}>{{{{ probe() }}}}"))]);
+            add("super3", pos, &[("main", format!("{{% extends 'mid' %}}{{% block a %}}[{p}]{{{{ probe() }}}}{{% endblock %}}")),
+                                 ("mid", format!("{{% extends 'base' %}}{{% block a %}}({p}){{{{ probe() }}}}{{% endblock %}}")),
+                                 ("base", format!("<{{% block a %}}A{w}{{{{ probe() }}}}{{% endblock %}}>{{{{ probe() }}}}"))]);
+        }
+        for (pos, p) in positions("self.a()") {
+            add("selfblock", pos, &[("main", format!("{{% block a %}}a{w}{{{{ probe() }}}}{{% endblock %}}|{p}{{{{ probe() }}}}"))]);
+        }
+        for (pos, p) in positions("rblock('a')") {
+            add("render_block", pos, &[("main", format!("{{% block a %}}a{w}{{{{ probe() }}}}{{% endblock %}}|{p}{{{{ probe() }}}}"))]);
+        }
+        for (pos, p) in positions("cmacro('m')") {
+            add("call_macro", pos, &[("main", format!("{{% macro m() %}}n{w}{{{{ probe() }}}}{{% endmacro %}}{p}{{{{ probe() }}}}"))]);
+        }
+        for (pos, p) in positions("apply(m, 1)") {
+            add("apply", pos, &[("main", format!("{{% macro m(x) %}}n{{{{ x }}}}{w}{{{{ probe() }}}}{{% endmacro %}}{p}{{{{ probe() }}}}"))]);
+        }
+        for (pos, p) in positions("loop(t.ch)") {
+            if pos == "twice-in-loop" {
+                continue; // `loop` would refer to the inner, non-recursive loop
+            }
+            add("recurse", pos, &[("main", format!("{{% for t in tree recursive %}}{{{{ t.v }}}}{w}{{{{ probe() }}}}({p}){{% endfor %}}{{{{ probe() }}}}"))]);
+        }
+        // statements that enter a nested evaluation, in plain and in captured surroundings
+        let inc = ("inc", format!("i{{{{ a }}}}{w}{{{{ probe() }}}}"));
+        let stmts: Vec<(&str, String, Vec<(&str, String)>)> = vec![
+            ("include", "{% include 'inc' %}".to_string(), vec![inc.clone()]),
+            ("callblock", format!("{{% call m() %}}c{w}{{{{ probe() }}}}{{% endcall %}}"), vec![]),
+            ("fastsuper", "{{ super() }}".to_string(), vec![]),
+        ];
+        for (edge, stmt, extra) in stmts {
+            let surround: Vec<(&str, String)> = vec![
+                ("plain", stmt.clone()),
+                ("setblock", format!("{{% set x %}}{stmt}{{% endset %}}{{{{ x }}}}{{{{ x|upper }}}}")),
+                ("filterblock", format!("{{% filter upper %}}{stmt}{{% endfilter %}}")),
+                ("autoescape", format!("{{% autoescape true %}}{stmt}{{% endautoescape %}}")),
+                ("loop", format!("{{% for i in range(2) %}}{stmt}{{% endfor %}}")),
+                ("with", format!("{{% with a = 2 %}}{stmt}{{% endwith %}}")),
+                ("if", format!("{{% if c %}}{stmt}{{% endif %}}")),
+                ("setblock-in-loop", format!("{{% for i in range(2) %}}{{% set x %}}{stmt}{{% endset %}}{{{{ x }}}}{{% endfor %}}")),
+            ];
+            for (pos, body) in surround {
+                let mdef = "{% macro m() %}[{{ caller() }}]{% endmacro %}";
+                let mut tpls: Vec<(&str, String)> = match edge {
+                    "fastsuper" => vec![
+                        ("main", format!("{{% extends 'base' %}}{{% block a %}}{body}{{{{ probe() }}}}{{% endblock %}}")),
+                        ("base", format!("<{{% block a %}}A{w}{{{{ probe() }}}}{{% endblock %}}>{{{{ probe() }}}}")),
+                    ],
+                    "callblock" => vec![("main", format!("{mdef}{body}{{{{ probe() }}}}"))],
+                    _ => vec![("main", format!("{body}{{{{ probe() }}}}"))],
+                };
+                tpls.extend(extra.clone());
+                add(edge, pos, &tpls);
+                if edge == "include" {
+                    // the include itself inside a macro, a block, a call body, a parent block
+                    let wrap: Vec<(&str, Vec<(&str, String)>)> = vec![
+                        ("in-macro", vec![("main", format!("{{% macro mm() %}}{body}{{% endmacro %}}{{{{ mm() }}}}{{{{ mm()|upper }}}}{{{{ probe() }}}}"))]),
+                        ("in-block", vec![("main", format!("{{% block b %}}{body}{{% endblock %}}{{{{ self.b()|upper }}}}{{{{ probe() }}}}"))]),
+                        ("in-callbody", vec![("main", format!("{mdef}{{% call m() %}}{body}{{% endcall %}}{{{{ probe() }}}}"))]),
+                        ("in-parent-block", vec![
+                            ("main", "{% extends 'base' %}{% block a %}{{ super()|upper }}{{ super() }}{{ probe() }}{% endblock %}".to_string()),
+                            ("base", format!("<{{% block a %}}{body}{{% endblock %}}>{{{{ probe() }}}}"))]),
+                    ];
+                    for (wname, mut wt) in wrap {
+                        wt.extend(extra.clone());
+                        add("include", &format!("{}-{}", pos, wname), &wt);
+                    }
+                }
+            }
+        }
+        // blocks that are themselves rendered inside a capture / filter block of the parent
+        add("block", "in-setblock", &[
+            ("main", format!("{{% extends 'base' %}}{{% block a %}}c{w}{{{{ probe() }}}}{{% endblock %}}")),
+            ("base", "{% set x %}{% block a %}A{% endblock %}{% endset %}[{{ x }}{{ x }}]{{ probe() }}".to_string())]);
+        add("block", "in-filterblock", &[
+            ("main", format!("{{% extends 'base' %}}{{% block a %}}c{w}{{{{ probe() }}}}{{% endblock %}}")),
+            ("base", "{% filter upper %}{% block a %}A{% endblock %}{% endfilter %}{{ probe() }}".to_string())]);
+        add("block", "in-macro-of-parent", &[
+            ("main", format!("{{% extends 'base' %}}{{% block a %}}c{w}{{{{ probe() }}}}{{% endblock %}}")),
+            ("base", "{% macro mm() %}{{ self.a() }}{% endmacro %}{% block a %}A{% endblock %}{{ mm()|upper }}{{ probe() }}".to_string())]);
+    }
+}
+
 fn fixed_programs(thorough: bool) -> Vec<Prog> {
     let mut v = vec![];
     // A. straight-line
@@ -571,6 +707,7 @@ fn fixed_programs(thorough: bool) -> Vec<Prog> {
     v.push(prog("inherit:include-in-block", "", 0,
                 &[("main", "{% extends 'base' %}{% block a %}{% include 'inc' %}{{ super() }}{% endblock %}".to_string()),
                   ("base", base.to_string()), ("inc", "I{{ probe() }}".to_string())]));
+    edge_programs(&mut v);
     // G. renders that fail without fuel as well
     let failing = [
         "A{{ 1 }}{{ nofn() }}B", "{% for x in range(3) %}{{ x }}{% if x == 1 %}{{ 1 // 0 }}{% endif %}{% endfor %}",
@@ -613,7 +750,17 @@ impl Gen<'_> {
             }
             return self.rng.pick(&atoms).to_string();
         }
-        match self.rng.below(9) {
+        match self.rng.below(11) {
+            9 | 10 if self.nmacros > 0 => {
+                let m = self.rng.below(self.nmacros as u64);
+                let arg = self.expr(depth + 1);
+                match self.rng.below(3) {
+                    0 => format!("m{}({})", m, arg),
+                    1 => format!("m{}({})|upper", m, arg),
+                    _ => format!("(m{}({}) ~ 'x')", m, arg),
+                }
+            }
+            9 | 10 => format!("{}|string", self.expr(depth + 1)),
             0 => format!("({} ~ {})", self.expr(depth + 1), self.expr(depth + 1)),
             1 => format!("({} == {})", self.expr(depth + 1), self.expr(depth + 1)),
             2 => format!("({} and {})", self.expr(depth + 1), self.expr(depth + 1)),
@@ -685,7 +832,11 @@ fn random_program(rng: &mut Rng, idx: usize) -> Prog {
     let main = if inherit {
         let b0 = g.frags(1, 2);
         let b1 = g.frags(1, 2);
-        let sup = if g.rng.chance(1, 2) { "{{ super() }}" } else { "" };
+        let sup = *g.rng.pick(&[
+            "", "{{ super() }}", "{{ super()|upper }}", "{% set sx = super() %}{{ sx }}{{ sx }}", "{{ super() ~ 'x' }}",
+            "{% if super() %}y{% endif %}", "{% set sx %}{{ super() }}{% endset %}{{ sx }}", "{% for i in range(2) %}{{ super()|lower }}{% endfor %}",
+        ]);
+        let selfcall = *g.rng.pick(&["", "", "{{ self.ba() }}", "{{ self.ba()|upper }}", "{% set sb = self.ba() %}{{ sb }}", "{{ rblock('ba') }}"]);
         let base_a = g.frags(1, 2);
         let base_pre = g.frags(1, 2);
         let in_loop = g.rng.chance(1, 3);
@@ -695,7 +846,7 @@ fn random_program(rng: &mut Rng, idx: usize) -> Prog {
             format!("{}{{% block ba %}}{}{{% endblock %}}-{{% block bb %}}bb{{% endblock %}}{{{{ probe() }}}}", base_pre, base_a)
         };
         tpls.push(("base".to_string(), base));
-        format!("{{% extends 'base' %}}{}{{% block ba %}}{}{}{{% endblock %}}{{% block bb %}}{}{{% endblock %}}", macro_defs, b0, sup, b1)
+        format!("{{% extends 'base' %}}{}{{% block ba %}}{}{}{{% endblock %}}{{% block bb %}}{}{}{{% endblock %}}", macro_defs, b0, sup, b1, selfcall)
     } else {
         format!("{}{}", macro_defs, g.frags(0, 5))
     };
